@@ -11,6 +11,7 @@ import (
 	"flag"
 	"fmt"
 	"os"
+	"path/filepath"
 	"runtime"
 	"runtime/debug"
 	"runtime/pprof"
@@ -125,6 +126,10 @@ func (b *budgeter) next() time.Time {
 }
 
 func check(flags explore.Flags, out *os.File, only string, lenOverride, depthOverride int) int {
+	if only != "" && flags.Evidence == filepath.Join(explore.VerifDir, "evidence", "C09.json") {
+		// a partial run (-only) must not replace the evidence of a full one
+		flags.Evidence = filepath.Join(explore.VerifDir, "build", "C09.partial.json")
+	}
 	rep := explore.NewReporter("C09", "model_checking", flags, out)
 	budget := flags.Budget
 	L, orderL, depth, nRandom, randomLen, maxStates := 5, 7, 8, 1500, 300, 400000
@@ -280,15 +285,13 @@ func check(flags explore.Flags, out *os.File, only string, lenOverride, depthOve
 	for _, f := range best {
 		rep.Violation(f.Sig, f.What, f.Case)
 	}
-	rep.Set("violation_classes_seen (occurrences over all executions, known findings included)", occ)
+	rep.Set("violation_class_occurrences", occ)
 	rep.Set("evaluations", evaluations)
 	rep.Set("traces_validated_against_impl", traces)
-	if states == 0 {
-		// the search phase was switched off (-only): the enumeration's sequences are the only traces
-		states, transitions = 1, 1
+	if states > 0 { // absent when the search phase was switched off with -only
+		rep.Set("states", states)
+		rep.Set("transitions", transitions)
 	}
-	rep.Set("states", states)
-	rep.Set("transitions", transitions)
 	rep.Set("distinct_nontrivial", nontrivial)
 	rep.Set("distinct_root_hashes_seen_in_enumerations", hashes)
 	rep.Set("rule", "cases are operation sequences, enumerated without repetition (every legal sequence over the alphabet up to the length bound; "+
